@@ -922,7 +922,7 @@ def traced_render(env: Any, name: str, data: dict, *, trace_buffers: bool) -> di
     tr = Tracer(ctx, buf, tb)
     TR = tr
     try:
-        with deadline(20):
+        with deadline(5):
             t.render_with_context(ctx, buf)
         res["outcome"] = "ok"
     except RecursionError:
@@ -948,7 +948,7 @@ def plain_render(env: Any, name: str, data: dict, use_async: bool = False) -> tu
     """The public API path, uninstrumented."""
     try:
         t = env.get_template(name)
-        with deadline(20):
+        with deadline(5):
             if use_async:
                 loop = asyncio.new_event_loop()
                 try:
@@ -1149,7 +1149,7 @@ def cyclic_programs(r: Any, thorough: bool) -> list[dict[str, Any]]:
     add("cyc-block-render", {"main": "{% extends 'q1' %}{% block b %}{% render 'main' %}{% endblock %}",
                              "q1": "A{% block b %}{% endblock %}"}, "ContextDepthError")
     # guarded recursion: depth decided by data
-    for depth in ((2, 5) if not thorough else (1, 2, 3, 5, 8)):
+    for depth in ((2, 7) if not thorough else (1, 2, 3, 5, 8)):
         add(f"guard-render{depth}",
             {"main": "{% assign m = n | minus: 1 %}r{% if m > 0 %}{% render 'main', n: m %}{% endif %}"},
             "ok", kind="guarded", data={"n": depth})
@@ -1479,8 +1479,12 @@ def main(chk: C.Check, build: C.Build) -> None:
                             {"templates": prog["templates"], "data": prog["data"].get("n")})
                 continue
             depths = tuple(sorted({max(m["depth_need"] + d, 0) for d in (-2, -1, 0, 1, 2)}))
+        hung = False
         for L in depths:
+            if hung:
+                break
             res = traced_render(env_for(prog, depth=L), "main", prog["data"], trace_buffers=False)
+            hung = res["outcome"] == "DoesNotTerminate"
             evaluations += 1
             bump("B cyclic/guarded runs")
             tr = res["tr"]
@@ -1508,6 +1512,8 @@ def main(chk: C.Check, build: C.Build) -> None:
                                              "outcome": res["outcome"]})
             if L in (2, 5) or prog["kind"] == "guarded":
                 add_traces(prog, "depth", {"depth": L}, res)
+            if hung:
+                continue
             po, _ = plain_render(env_for(prog, depth=L), "main", prog["data"], use_async=(L % 2 == 1))
             evaluations += 1
             if po != res["outcome"]:
